@@ -4,6 +4,7 @@ C16  Total nanoseconds <-> (seconds, nanoseconds) conversion is exact and floor-
 import TzVerif.Model.TimeZone
 import TzVerif.Spec.Calendar
 import TzVerif.Proofs.SrcEqZone
+import TzVerif.Proofs.SrcEqGetters
 import TzVerif.Generated.StableC16   -- per run: the current translation (SrcNow) equals the baseline (Src) these theorems are about
 
 namespace TzVerif.C16
@@ -120,5 +121,13 @@ theorem split_correct_src (n : Int) :
       (if i64Min ≤ n / 1000000000 ∧ n / 1000000000 ≤ i64Max then .ok (n / 1000000000, n % 1000000000)
        else .error .outOfRange) := by
   rw [Proofs.SrcEq.total_nanoseconds_to_timespec_eq]; exact split_correct n
+
+/-- the `total_nanoseconds()` getters as the source has them (generated by `impl_datetime!()`): seconds · 10⁹ +
+nanoseconds, of the Unix time the value denotes -/
+theorem total_nanoseconds_getters_src (c : UtcDateTime) (d : DateTime) :
+    Src.UtcDateTime.total_nanoseconds c = c.unixTime * 1000000000 + c.nanoseconds ∧
+    Src.DateTime.total_nanoseconds d = d.unixTime * 1000000000 + d.nanoseconds := by
+  rw [Proofs.SrcEq.utc_total_nanoseconds_eq, Proofs.SrcEq.dt_total_nanoseconds_eq, recombine, recombine]
+  exact ⟨rfl, rfl⟩
 
 end TzVerif.C16
